@@ -306,7 +306,8 @@ def sampled_case(draw, fmt, max_records, W):
     data, adm, offset = malformed_bytes(case)
     size = len(data)
     ks = sorted({x for x in (offset - 1, offset, offset + 1, size, size + 1, size // 2, size // 3, 1, 2) if 1 <= x <= size + 2})
-    case.update(k=draw(st.one_of(st.sampled_from(ks), st.integers(1, size + 2))), gzip=draw(st.booleans()), lazy=draw(st.booleans()))
+    # (very small chunk sizes on files of tens of kilobytes cost quadratic time without showing anything new)
+    case.update(k=max(draw(st.one_of(st.sampled_from(ks), st.integers(1, size + 2))), size // 2000), gzip=draw(st.booleans()), lazy=draw(st.booleans()))
     return case
 
 
